@@ -68,6 +68,13 @@ def make_texts(rng):
     a.add_task("y3", effort=10 * 3600, alloc=[pool[0]], alt=[pool[1], pool[0]], prio=410)
     a.extra = REPORT
     b = gen.limits_profile(rng, 1)[0][1]
+    # people in zones of their own with hours of their own: whatever is remembered about "slot i of this zone" while B is
+    # scheduled must not be taken for slot i of C, which begins at the same instant but counts slots of another length
+    tok = b.add_res("tok", hours=gen.std_hours(540, 1020), tz="Asia/Tokyo")
+    nyc = b.add_res("nyc", hours={d: [(480, 720), (780, 1020)] for d in range(5)}, tz="America/New_York")
+    tok.rate, nyc.rate = 70, 95
+    tz1 = b.add_task("tz1", effort=21 * 3600, alloc=[tok], prio=350)
+    b.add_task("tz2", effort=13 * 3600 + 1800, alloc=[nyc], prio=340, deps=[(tz1, False, 0)])
     b.scenarios = [("plan", [("alt", [])])]
     leaves = [t for t in b.tasks if not t.kids and t.effort]
     if leaves:
@@ -77,6 +84,7 @@ def make_texts(rng):
     # and reaches the nested one by inheritance: whatever a builder remembers about "B's task x has a value of its own in
     # scenario alt" must not leak into another project
     c = gen.clone(b)
+    c.G = 1800 if b.G != 1800 else 3600
     cl = [t for t in c.tasks if not t.kids and t.effort]
     if cl:
         cl[0].scen = {"plan": {"effort": cl[0].effort * 3}}
